@@ -102,6 +102,7 @@ def run(chk):
                     chk.inconclusive("R3", hname, detail, short(f["loc"]))
             except ev.Inconclusive as x:
                 chk.inconclusive("R3", hname, str(x), short(f["loc"]))
+    stdlib_hash(chk)
     chk.floor("comparison operators (x3 numeric types)", n_ops, 1700)
     chk.floor("hash specialisations (x3)", n_hash, 290)
     chk.coverage["slot_relation_assignments_enumerated"] = n_cases
@@ -145,3 +146,26 @@ def hash_shape(t, slots):
         # not required for a == b => hash(a) == hash(b), but a slot that is ignored is worth saying
         return True, "reads %d of %d slots (ignores %s): equal objects still hash equally" % (len(set(read)), len(slots), missing[:3])
     return True, "reads each of the %d slots through std::hash of the component; integer mixing only" % len(slots)
+
+
+def stdlib_hash(chk):
+    """R3b: the libstdc++ std::hash<float/double> bodies seen by this build map +0 and -0 to the same hash
+    (x != 0 ? H(x) : 0).  std::hash<long double> is defined out of line in libstdc++.so and is trusted."""
+    chk.rule("R3b", "libstdc++ std::hash<floating>::operator() is (x != 0 ? H(x) : 0): +0 and -0 hash equally (header bodies only; long double is out of line)")
+    F = facts.load("double", chk.tier)
+    for T in ("float", "double"):
+        fs = [f for f in F.by_name.get("std::hash<%s>::operator()" % T, []) if "body" in f]
+        inst = "std::hash<%s>::operator()" % T
+        if not fs:
+            chk.observe("%s has no body in the headers of this toolchain: trusted" % inst)
+            continue
+        try:
+            E = ev.Evaluator(F)
+            E.descend_std_hash = True
+            r, _, _ = E.run_symbolic(fs[0], arg_prefixes=["x"])
+            r = E.rv(r)
+            ok = (isinstance(r, tuple) and r[0] == "g" and isinstance(r[1], tuple) and r[1][0] == "cmp" and r[1][1] == "!="
+                  and ev.leaves(r[1]) == {"x"} and r[3] in (0, ev.ZERO))
+            (chk.holds if ok else chk.violated)("R3b", inst, ev.show(r)[:160], fs[0]["loc"])
+        except ev.Inconclusive as x:
+            chk.observe("%s: body not understood (%s): trusted" % (inst, x))
